@@ -216,6 +216,21 @@ def tlc(module, cfg, files=None, workers=None, timeout=600, args=None, keep=None
         shutil.rmtree(work, ignore_errors=True)
 
 
+def apalache(module, args, timeout=600):
+    """Run apalache-mc check on spec/<module>.tla in a scratch copy. Returns (ok, error_found, output)."""
+    work = tempfile.mkdtemp(prefix="vapa_")
+    try:
+        shutil.copy(os.path.join(SPEC, module + ".tla"), work)
+        cmd = ["timeout", str(int(timeout)), "apalache-mc", "check"] + list(args) + [module + ".tla"]
+        rc, out, dt = sh(cmd, cwd=work, timeout=timeout + 30)
+        ok = "EXITCODE: OK" in out
+        err = "EXITCODE: ERROR (12)" in out
+        log("[apalache] %s %s: %s %.1fs" % (module, " ".join(args), "ok" if ok else ("counterexample" if err else "failed rc=%s" % rc), dt))
+        return ok, err, out
+    finally:
+        shutil.rmtree(work, ignore_errors=True)
+
+
 def tlc_must_pass(module, cfg, **kw):
     """Design-level model check; a failure here is a statement about the model => inconclusive (exit 2)."""
     r = tlc(module, cfg, **kw)
